@@ -6,3 +6,4 @@ Open Scope Z_scope.
 (* IMR = 0x08 (ON-key mask set, master enable clear), ISR = 0x08: PCE500Emulator.step takes the interrupt *)
 Theorem C12_python_gate_refuted : exists imr isr, py_gate imr isr = true /\ irq_gate imr isr = false.
 Proof. exists 8, 8. split; vm_compute; reflexivity. Qed.
+Print Assumptions C12_python_gate_refuted.
